@@ -110,7 +110,7 @@ func (w *ParallelWorkers) startWorker() {
 				w.lock.RUnlock()
 				if err != nil {
 					w.sg.Done()
-					return
+					continue
 				}
 				// Attempt to process the job
 				if err := j(); err != nil {
